@@ -152,8 +152,9 @@ PROPS = {
                      "flushed inside Shutdown); the quantifier over ALL schedules is carried by the Lean component model, tied to the source by the skeleton equalities"],
     ),
     "C05": dict(
-        components=[("flow-C05", 250, 6000)],
+        components=[("flow-C05", 250, 6000), ("supervise-C05", 1, 2)],
         race=True,
+        race_components=["flow-C05"],
         parallel=8,
         shrink=False,
         trusted=EXEC_TRUST,
